@@ -138,7 +138,7 @@ def lean_build_and_audit(prop, thorough=False):
 
 # properties whose model is additionally tied to the source by the translator (harness/translate.py): the formulas of the
 # temperature / variance-propagation block are re-read from the current source, emitted as Lean, and proved equal to the model
-TRANSLATED = {"C04", "C05", "C06"}
+TRANSLATED = {"C04", "C05", "C06", "C08"}
 
 
 def translated_obligations(prop, res):
